@@ -4,6 +4,7 @@ import DoltVerif.Model.JournalRecover
 import DoltVerif.Model.JournalWriter
 import DoltVerif.Model.JournalIndex
 import DoltVerif.Model.JournalLock
+import DoltVerif.Model.JournalWindow
 open DoltVerif DoltVerif.Journal DoltVerif.Wire
 
 structure St where
@@ -86,6 +87,10 @@ def step (st : St) : List String → St × String
       | _, _ => (st, "bad-op")
   | ["dlc", bsz, h] => match bsz.toNat?, unhex h with
       | some B, some b => (st, match dlc B b false with
+          | .ok true => "true" | .ok false => "false" | .error e => s!"err {rerr e}")
+      | _, _ => (st, "bad-op")
+  | ["wdlc", bsz, h] => match bsz.toNat?, unhex h with
+      | some B, some b => (st, match windowedDlc B b with
           | .ok true => "true" | .ok false => "false" | .error e => s!"err {rerr e}")
       | _, _ => (st, "bad-op")
   | ["winit", cap, mx, thr, off, idx, nov, root, clock, crc] =>
